@@ -9,6 +9,9 @@
 #include "types.h"
 #include "meta.h"
 
+#ifndef KF_C06_NAME_CROSS_KIND
+# define KF_C06_NAME_CROSS_KIND 0
+#endif
 #ifndef K
 # define K 3
 #endif
@@ -51,6 +54,9 @@ void harness(void)
 #endif
 			const MPT_STRUCT(named_traits) *e;
 			for (j = 0; j < n; j++) if (nameidx[j] == ni && kind[j] == op) dup = 1;   /* duplicates are per kind */
+			{ int cross = 0; for (j = 0; j < n; j++) if (nameidx[j] == ni && kind[j] != op && kind[j] >= 2) cross = 1;
+			  /* region: the same name registered both as interface and as metatype */
+			  V_KF(KF_C06_NAME_CROSS_KIND, cross); }
 			e = (op == 2) ? mpt_type_interface_add(names[ni]) : mpt_type_metatype_add(names[ni]);
 			if (ni == 2) { V_ASSERT(e == 0, "names shorter than 4 characters are refused"); continue; }
 			if (dup) { V_ASSERT(e == 0, "duplicate names are refused"); continue; }
